@@ -16,4 +16,4 @@ for p in "$@"; do
   echo "$d $p violations=$v replayed=$r :: $(echo "$out" | grep -A1 '^VIOLATION' | grep obligation | head -3 | cut -c1-150 | tr '\n' '|')"
   echo "$out" | tail -1
 done
-rm -rf $S
+rm -rf $S /verif/out/*/quick_$(basename $S) /verif/out/*/thorough_$(basename $S)
